@@ -997,6 +997,14 @@ func (env *Env) evalCall(e *Expr) CV {
 			return CV{V: Scalar{has}, T: boolT}
 		}
 		return CV{V: val, T: mt.Elem()}
+	case "iterpos":
+		// position (byte index of the next rune) of the function's string range iterator
+		for k, v := range env.cur.Ghost {
+			if strings.HasPrefix(k, "iterpos:") && v != nil {
+				return CV{V: Scalar{v}, T: it}
+			}
+		}
+		panic(cerr("iterpos(): no range iterator in scope"))
 	case "loopdec":
 		// loopdec(N): the value the decreases measure of (enclosing) loop N had at its header
 		n := int(e.Args[0].Lit.Int64())
